@@ -65,31 +65,27 @@ def confirm(pid, k):
     if rc != 0:
         print('patch does not apply:', out)
         return 1
-    # the demonstration: the first sh block of RUN.md, without its clean-up
-    blocks = re.findall(r'```(?:sh|bash|shell)?\n(.*?)```', run, re.S)
-    demo = None
-    for b in blocks:
-        if 'git apply' in b and 'cargo' in b:
-            demo = b
-            break
-    if demo is None:
-        print('RUN.md has no demonstration block I can run; confirm by hand')
+    # the demonstration: set-up lines (cp / mkdir) and the demo's cargo command, taken from RUN.md;
+    # the order "without the change, then with it" is imposed here
+    lines = [re.sub(r'^\s*\$?\s*', '', l) for l in run.splitlines()]
+    lines = [l for l in lines if l and not l.startswith('#')]
+    setup = []
+    for l in lines:
+        if (l.startswith('cp ') or l.startswith('mkdir ')) and l not in setup and 'patch.diff' not in l:
+            setup.append(l)
+    cargo_lines = [l for l in lines if re.search(r'\bcargo\b', l) and 'fuzz' not in l]
+    demo_cmds = [l for l in cargo_lines if ('--test ' in l or '--example' in l or 'cargo run' in l or '--bin' in l) and '--no-fail-fast' not in l]
+    if not demo_cmds:
+        print('RUN.md: no demonstration command found; confirm by hand')
         return 2
-    lines = []
-    for l in demo.splitlines():
-        s = l.strip()
-        if s.startswith('git checkout') or s.startswith('git clean') or s.startswith('rm -rf') or 'checkout -- .' in s:
-            continue
-        lines.append(l)
-    script = '\n'.join(lines)
-    # split at the `git apply` line: before = without the change, after = with it
-    pre, post = script.split('git apply', 1)
-    post = 'git apply' + post
+    demo_cmd = demo_cmds[0]
+    pre = '\n'.join(setup + [demo_cmd])
+    post = f'git apply {patch}\n' + demo_cmd
 
     def run_cargo(part, tag):
         cmds = []
         for l in part.splitlines():
-            if re.search(r'\bcargo\b', l) and not l.strip().startswith('#'):
+            if re.search(r'\bcargo\b', l):
                 cmds.append(l + f'; echo "@@RC {tag} $?"')
             else:
                 cmds.append(l)
